@@ -388,7 +388,13 @@ class LemmaHarness:
     def run(self, c):
         I = (RInputs if self.rmode else SymInputs)(c)
         c.notes["I"] = I
-        self.fn(I)
+        try:
+            self.fn(I)
+        except (Unsupported, PathAbort):
+            raise
+        except Exception as e:
+            # a lemma catches the exceptions its clauses allow; anything else escaping the real code is a violation
+            raise Violation(f"{self.name}:no_unexpected_exception", {"exception": type(e).__name__, "msg": str(e)[:200]})
         return [(f"{self.name}:{n}", t) for n, t in I.clauses]
 
     def witness(self, c, model, clause, info):
